@@ -140,8 +140,8 @@ Fixpoint mrun (p : prog bytes) (rds : list rd) {struct p} : list pact * outcome 
 
 Definition is_nil {A} (l : list A) : bool := match l with [] => true | _ => false end.
 
-(* the model skips the echo read for an empty input matched fuzzily (ReadUntilFuzzy returns at once) *)
-Definition echo_skipped (o : op_opts) (input : bytes) : bool := is_nil input && negb (o_exact o).
+(* the model skips the echo read for an empty input (ReadUntilFuzzy and ReadUntilExplicit return at once) *)
+Definition echo_skipped (o : op_opts) (input : bytes) : bool := is_nil input.
 
 (* which of the source's two reads fails, given the outcomes of the model's reads *)
 Definition fail_src (o : op_opts) (input : bytes) (rds : list rd) : option (nat * bool) :=
